@@ -41,6 +41,20 @@ func runC05(r *Run) {
 	if r.Want("backlog") && r.NumViolations() == 0 {
 		c05Backlog(r)
 	}
+	// concurrent unary calls with payloads up to 64 KiB and forced completion orders of the worker pool
+	// (the C01 pairing rounds): no caller may be handed bytes of another call's reply
+	if r.Want("pairing") && r.NumViolations() == 0 {
+		rng := r.Rand("c05.pairing")
+		for _, serialise := range []bool{true, false} {
+			net := c01Direct(serialise)
+			for round, rounds := 0, r.Scale(12, 80); round < rounds; round++ {
+				if !c01Round(r, net, []int{8, 16}[round%2], round, rng) {
+					break
+				}
+			}
+			net.close()
+		}
+	}
 	if r.Want("alloc") && r.NumViolations() == 0 {
 		c05Alloc(r)
 	}
